@@ -234,13 +234,26 @@ def main():
             ends = [i for i, _ in flush_marks if i >= s_i]
             e_i = ends[0] if ends else s_i
             inflush.update(range(s_i, e_i + 1))
-        interesting = [k for k in cand if k in inflush or (0 < k < len(ops) and classify(ops[k - 1].path) != classify(ops[k].path))
-                       or (k < len(ops) and ops[k].kind in ("r", "u"))]
-        rest = [k for k in cand if k not in set(interesting)]
-        rng.shuffle(interesting)
-        rng.shuffle(rest)
-        budget = per_workload
-        chosen = interesting[:max(1, (budget * 2) // 3 // 2)] + rest[:max(1, budget // 3 // 2)]
+        # A: every cut inside a run of coins-DB partial batches (between two chainstate log writes, or right after the first);
+        # B: cuts just before a rename/unlink; C: other cuts inside a flush or at a change of file class; D: the rest
+        def is_coins_w(i):
+            return 0 <= i < len(ops) and ops[i].kind == "w" and classify(ops[i].path) == "coins-log"
+        cand_set = set(cand)
+        A = [k for k in cand if is_coins_w(k - 1) and (is_coins_w(k) or (k in inflush))]
+        B = [k for k in cand if k < len(ops) and ops[k].kind in ("r", "u") and k not in set(A)]
+        seen = set(A) | set(B)
+        C = [k for k in cand if k not in seen and (k in inflush or (0 < k < len(ops) and classify(ops[k - 1].path) != classify(ops[k].path)))]
+        seen |= set(C)
+        D = [k for k in cand if k not in seen]
+        for lst in (A, B, C, D):
+            rng.shuffle(lst)
+        budget = max(4, per_workload // 2)  # ~2 images per cut
+        nA = min(len(A), max(2, budget // 2))
+        nB = min(len(B), max(1, budget // 8))
+        nC = min(len(C), max(1, (budget - nA - nB) * 2 // 3))
+        nD = min(len(D), max(1, budget - nA - nB - nC))
+        chosen = A[:nA] + B[:nB] + C[:nC] + D[:nD]
+        stats["classes"]["coins-batch-window-cuts-available"] = stats["classes"].get("coins-batch-window-cuts-available", 0) + len(A)
         if a.tier == "thorough" and a.cases >= 100000:
             chosen = cand  # exhaustive over cut points
         stats["classes"]["ops-in-trace"] = stats["classes"].get("ops-in-trace", 0) + len(ops)
@@ -279,6 +292,8 @@ def main():
                 cls("window:" + meta["window"])
                 if k in inflush:
                     cls("cut-inside-flush")
+                if is_coins_w(k - 1):
+                    cls("cut-after-coins-batch")
                 if nontrivial:
                     stats["nontrivial"] += 1
                     shapes.add(int.from_bytes(hashlib.sha256(f"{a.seed}/{a.worker}/{wl}/{k}/{mode}".encode()).digest()[:8], "little"))
